@@ -51,12 +51,12 @@ DISK_CFG = {"name": "disk", "args": ["--idx", "--own-dir"], "env": {"VIBESQL_VER
 @prop("C13", "C14")
 def check_txn(prop_id, tier, seed):
     t0 = time.time()
-    depth = {"quick": 6, "thorough": 8}[tier]
+    depth = {"quick": 6, "thorough": 7}[tier]
     scen, stats = vc.gen_scenarios(prop_id, "MC_Txn", "MC_Txn.cfg", ec.ENGINE_DEPS, consts={"MaxDepth": depth}, workers=1)
     stats["exhaustive"] = True
     # the index registry and index contents must come back with ROLLBACK / ROLLBACK TO under both index back-ends:
     # in-memory indexes are copied at BEGIN, a disk-backed B+ tree is shared between the live index and that copy
-    step = {"quick": 4, "thorough": 1}[tier]
+    step = {"quick": 4, "thorough": 2}[tier]
     parts = [{"name": "txn", "scenarios": scen, "configs": [{"name": "default", "args": ["--idx"]}]},
              {"name": "txn_disk", "scenarios": scen[::step], "configs": [DISK_CFG]}]
     wd = os.path.join(vc.RUN, "work_%s" % prop_id)
@@ -173,7 +173,7 @@ def check_dml(prop_id, tier, seed):
         parts.append({"name": "dml2", "scenarios": s2, "configs": cfgs})
         models.append("MC_Dml2")
     if prop_id == "C10":
-        s3, st3 = idx_scenarios(prop_id, tier, seed, 10 ** 9, 0)
+        s3, st3 = idx_scenarios(prop_id, tier, seed, {"quick": 10 ** 9, "thorough": 150000}[tier], 0)
         _gen_add(agg, st3)
         parts.append({"name": "idx", "scenarios": s3, "configs": cfgs})
         models.append("MC_Idx")
@@ -257,7 +257,7 @@ def check_c15(prop_id, tier, seed):
     # MC_Dml (the PRIMARY KEY / UNIQUE constraint hash indexes under key-changing, NULL-ing and rejected statements)
     # and MC_Txn (index contents across ROLLBACK / ROLLBACK TO SAVEPOINT).
     t0 = time.time()
-    scen, stats = idx_scenarios(prop_id, tier, seed, 10 ** 9, 0)
+    scen, stats = idx_scenarios(prop_id, tier, seed, {"quick": 10 ** 9, "thorough": 150000}[tier], 0)
     d = {"quick": 6, "thorough": 7}[tier]
     dml, st2 = vc.gen_scenarios(prop_id, "MC_Dml", "MC_Dml.cfg", ec.ENGINE_DEPS, consts={"MaxDepth": d}, workers=1)
     txn, st3 = vc.gen_scenarios(prop_id, "MC_Txn", "MC_Txn.cfg", ec.ENGINE_DEPS, consts={"MaxDepth": {"quick": 5, "thorough": 6}[tier]}, workers=1)
@@ -323,7 +323,7 @@ def sem_variant_check(prop_id, tier, seed, families, variants, bounds=None, conf
 
 JOIN_BOUNDS = {
     "quick":    {"Max1": 2, "Max2": 1, "IntVals": "{0, 1}", "StrVals": '{"a"}'},
-    "thorough": {"Max1": 2, "Max2": 2, "IntVals": "{0, 1}", "StrVals": '{"a"}'},
+    "thorough": {"Max1": 2, "Max2": 1, "IntVals": "{0, 1}", "StrVals": '{"a"}'},
 }
 JOIN_VARIANTS = {"quick": ["plain", "indexed_analyze"], "thorough": ["plain", "analyze", "indexed", "indexed_analyze"]}
 
@@ -693,7 +693,7 @@ def check_c25(prop_id, tier, seed):
     depth = {"quick": 4, "thorough": 5}[tier]
     # Fill = 1: one reader; Fill = 2: two readers that missed at the same time both store their result
     scen, stats = vc.gen_scenarios(prop_id, "MC_Cache", "MC_Cache.cfg", ec.ENGINE_DEPS, consts={"MaxDepth": depth, "Fill": 1}, workers=1)
-    scen2, st2 = vc.gen_scenarios(prop_id, "MC_Cache", "MC_Cache.cfg", ec.ENGINE_DEPS, consts={"MaxDepth": depth, "Fill": 2}, workers=1)
+    scen2, st2 = vc.gen_scenarios(prop_id, "MC_Cache", "MC_Cache.cfg", ec.ENGINE_DEPS, consts={"MaxDepth": 4, "Fill": 2}, workers=1)
     for k in ("states_generated", "distinct_states"):
         stats[k] = stats.get(k, 0) + st2.get(k, 0)
     stats["exhaustive"] = True
